@@ -5,13 +5,16 @@ Decides:
   C08.cmr       the pruned program's roots are copies: Node::convert stores the source node's CMR (C09.copy re-evaluated)
   C08.tracker   SetTracker::visit_node records (AssertL|Case, bit 0) → left set and (AssertR|Case, bit 1) → right set,
                 keyed on the node's IHR; the interpreter hands every tracker the node's *input* frame captured before the
-                node ran; a tracker that forwards to another tracker passes its input on unconsumed
+                node ran; a tracker that forwards to another tracker passes its input on unconsumed; recording is
+                unconditional: no exit of visit_node precedes the (combinator, bit) decision and nothing else guards an
+                insertion
   C08.decision  Pruner::prune_case: (left seen, right seen) ↦ (t,t)→Neither, (f,t)→Left, (t,f)→Right, (f,f)→Neither, keyed on
                 the IHR of the *unpruned* node; Node::convert: Hide::Left → AssertR(left.cmr, right), Hide::Right →
                 AssertL(left, right.cmr), Neither → Case(left, right)
   C08.order     prune_with_tracker sizes a machine for the program, executes it with the caller's tracker (failure is
                 returned), only then converts with that tracker, then re-finalises; the pruned witness is
-                Value::prune(witness, finalised re-inferred target type) (C12.check re-evaluated)
+                Value::prune(witness, finalised re-inferred target type) (C12.check re-evaluated); both conversions hand on
+                the already converted disconnected branch, never one rebuilt from the original node
 """
 import facts as fm
 import flow
@@ -105,6 +108,39 @@ def run(ctx, rep):
                 rep.violation("C08.tracker", "SetTracker:%s:key" % side, "the %s set is not keyed on the visited node's IHR" % side, cs.where())
             else:
                 rep.ok("C08.tracker", "SetTracker " + side, sorted(got_n))
+        # recording is unconditional: the (variant, bit) decision dominates every normal exit (no early return that
+        # skips it), and on the paths to an insertion the only decisions are on the variant and on the bit
+        dec = [cs.bb for cs in f.calls() if cs.name in ("inner", "next")]
+        rets = [b for b in f.rpo() if f.blocks[b]["t"]["k"] == "return"]
+        if len(dec) < 2:
+            rep.anchor("C08.tracker", "SetTracker::visit_node: node.inner() and input.next()")
+        else:
+            # an exit decided on the combinator alone (or on the bit alone) is harmless; one decided before either is not
+            early = [b for b in rets if not any(f.dominates(d, b) for d in dec)]
+            if early:
+                rep.violation("C08.tracker", "SetTracker:early-exit", "visit_node can return without looking at the node's combinator and choice bit: "
+                              "an execution of a case node may go unrecorded (a branch taken on a later visit is then pruned)", f.where())
+            else:
+                rep.ok("C08.tracker", "SetTracker: every exit passes the (combinator, bit) decision", None)
+            extra = []
+            for cs in ins:
+                for blocks, conds in path_conditions(f):
+                    if cs.bb not in blocks:
+                        continue
+                    idx = blocks.index(cs.bb)
+                    k = sum(1 for b in blocks[:idx] if f.blocks[b]["t"]["k"] == "switch" and len(set(f.succ_map()[b])) > 1)
+                    for c in conds[:k]:
+                        if c[0] == "enum" and c[1] in ("Inner", "Option"):
+                            continue
+                        if c[0] == "int":
+                            d = T.operand(c[1])
+                            if any(cc[2] == "next" for cc in calls_in(d)) or "Some" in repr(d)[:200]:
+                                continue
+                        extra.append((cs.name, show(T.operand(c[1])) if c[0] == "int" else c[1]))
+            if extra:
+                rep.violation("C08.tracker", "SetTracker:guard", "an insertion into the branch sets is guarded by something other than the combinator and the choice bit: %s" % sorted(set(map(str, extra)))[:3], f.where())
+            else:
+                rep.ok("C08.tracker", "SetTracker: insertions guarded by combinator and bit only", None)
         # the bit is the first bit of the input iterator
         nx = [cs for cs in f.calls() if cs.name == "next"]
         if len(nx) == 1 and vcc.param_roots(T.operand(nx[0].args[0]), fm) == {3}:
@@ -308,6 +344,19 @@ def run(ctx, rep):
                                     rep.violation("C08.order", "pruner:tracker", "the Pruner's tracker is %s, not the tracker given to exec_with_tracker" % show(t), c.where())
                 else:
                     rep.violation("C08.order", "pipeline:converts", "expected convert with Pruner then convert with Finalizer, found <%s> then <%s>" % (ga0[-60:], ga1[-60:]), c.where())
+    # both conversions carry the *already converted* disconnected branch over: what convert_disconnect returns derives
+    # from its `right` parameter (the converted child), never from the original node (which is unpruned / untyped anew)
+    cds = [f for f in F.fns.values() if f.name == "convert_disconnect" and "prune_with_tracker::" in f.path]
+    if len(cds) < 2:
+        rep.anchor("C08.order", "convert_disconnect of prune_with_tracker's Pruner and Finalizer")
+    for f in cds:
+        who = "Pruner" if "::Pruner" in f.path else "Finalizer"
+        roots = vcc.param_roots(Terms(f).local(0), fm)
+        if roots == {3}:
+            rep.ok("C08.order", "%s::convert_disconnect passes the converted branch on" % who, None)
+        else:
+            rep.violation("C08.order", "%s:convert_disconnect" % who, "%s::convert_disconnect builds its result from parameters %s; expected only the already converted "
+                          "branch (parameter 3): the disconnected branch would be carried over without being pruned" % (who, sorted(roots)), f.where())
     sub12 = Report("C12", rep.tier)
     c12.run(ctx, sub12)
     v12 = [v for v in sub12.viols if "prune_with_tracker::Finalizer" in v["key"] and v["rule"] == "C12.check"]
